@@ -557,12 +557,16 @@ def history_paths(m: FuncInfo, stacks, props):
 
 def run(P: Program, R: Report, tier: str) -> None:
     describe(R)
-    history_shape(P, R)
+    history_shape(P, R, pure=False)
     registration(P, R, tier)
     # R02.8 a recorded step can be inverted any number of times: inverse() does not change the recorded action
     from .c01 import inverse_is_pure
 
     inverse_is_pure(P, R, "R02.8")
+    # R01.1 - R01.5 (shared with C01): "undo steps one state back" is only as good as the inverse that is replayed
+    from .c01 import inverse_duality
+
+    inverse_duality(P, R, ActionAnalysis(P, loop_iters=1))
 
 
 def describe(R: Report) -> None:
@@ -584,8 +588,13 @@ def describe(R: Report) -> None:
     ]
 
 
-def history_shape(P: Program, R: Report) -> None:
-    """R02.1 - R02.5: ownership and per-path shape of the history methods."""
+def history_shape(P: Program, R: Report, pure: bool = True) -> None:
+    """R02.1 - R02.5: ownership and per-path shape of the history methods (and R02.8: a recorded step can be inverted
+    again and again - inverse() leaves the recorded action alone)."""
+    if pure:
+        from .c01 import inverse_is_pure
+
+        inverse_is_pure(P, R, "R02.8")
     H = P.history_class()
     init = H.methods.get("__init__")
     if init is None:
@@ -704,13 +713,13 @@ def history_shape(P: Program, R: Report) -> None:
 
 
 
-def registration(P: Program, R: Report, tier: str) -> None:
+def registration(P: Program, R: Report, tier: str, A=None, facade: bool = True) -> None:
     from ..absint import Engine
 
     H = P.history_class()
     registrars = Engine(P, H.methods["__init__"]).register_methods
     # ---- R02.6 registration discipline
-    A = ActionAnalysis(P, loop_iters=1 if tier == "quick" else 2)
+    A = A or ActionAnalysis(P, loop_iters=1 if tier == "quick" else 2)
     keep = lambda e: e.kind in ("hist", "raise") or (e.kind == "cond" and e.xdepth == 0) or (  # noqa: E731
         e.kind == "construct" and e.args.get("_kind") == "user"
     )
@@ -770,4 +779,5 @@ def registration(P: Program, R: Report, tier: str) -> None:
                         via="exception:legacy-controller" if fn.short in LEGACY_REGISTRARS else "who-may-call")
     R.floor("R02.6d", "registrar call sites", n_calls, 1)
     # ---- R02.7 facade
-    check_facade(R, A, find_facade(P))
+    if facade:
+        check_facade(R, A, find_facade(P))
